@@ -8,45 +8,46 @@ from fqrlint import props
 NOTE_COMMON = ("Trusted: rustc's front end, MIR construction, trait resolution and constant evaluator; std behaving as documented; "
                "the ISO reference transcription (self-checked, cross-audited against qrcode 0.12); the rule engine (self-tested both ways). ")
 
+PE = "partial evaluation of configuration-determined MIR (engine E4: constant propagation with loops unrolled over the finite configuration space; payload symbolic)"
 P = {
- "C01": ("other", "DESIGN.md 3/C01", "MIR constant folding of all ISO tables + def-use/dominance rules over pipeline hand-offs + index polynomial algebra",
-         "Decides necessary structural clauses (every table cell, every hand-off, guarded writes), not round-trip equality itself; bit packing shifts, zig-zag order and GF division loops are not decided."),
- "C02": ("other", "DESIGN.md 3/C02", "MIR constant folding of block/generator tables vs ISO Table 9 + dataflow over structure()",
-         "All 160 layouts, counts, degrees and 13 generators are exact; the division loop and the corruption corollary are not decided."),
- "C03": ("other", "DESIGN.md 3/C03", "table folding (geometry, Annex E) + edge-dominance guard rule + who-may-write rule",
-         "Function patterns cannot be altered after blank-symbol construction on any path; the drawing loops' coordinates are decided only as far as the rules name."),
- "C04": ("other", "DESIGN.md 3/C04", "BCH recomputation of 32+34 words from folded tables + single-source (reaching-definition) rule for the mask + origin analysis of reported fields",
-         "Word values and value provenance are exact; bit-to-coordinate placement of the words only as far as the rules name."),
- "C05": ("proof", "DESIGN.md 3/C05", "decision-tree extraction (interval path enumeration) of Version::get over all usize + dominance/edge rules for the gate + compile witness",
-         "Exact for all lengths x 12 (mode, level) and all forced versions, relative to the encoders emitting the bit counts the capacity formula assumes (widths decided by C06 rules)."),
+ "C01": ("other", "DESIGN.md 3/C01 + 7", "MIR constant folding of all ISO tables + def-use/dominance rules over pipeline hand-offs + " + PE + " of blank symbol, format writer, mask sweeps, interleaving and codeword placement (symbolic codeword bits)",
+         "Every table, hand-off, the interleave, the zig-zag placement (bit i -> i-th data module, 13 versions quick / 40 thorough), the mask sets and the format positions are decided exactly for every payload; the segment encoders' bit packing (push_bits shifts) and the GF division loop are decided only through their constants and one-step algebra, so round-trip equality as a whole is not claimed."),
+ "C02": ("other", "DESIGN.md 3/C02 + 7", "MIR constant folding of block/generator tables vs ISO Table 9 + " + PE + " of polynomials::structure with symbolic data codewords and an opaque division",
+         "All 160 layouts, counts, degrees, 13 generators and the complete interleaved sequence (data then EC, zero tail) are exact for all 160 cells; the division loop itself (C07) and the corruption corollary are not decided."),
+ "C03": ("other", "DESIGN.md 3/C03 + 7", PE + " of default::create_matrix for all 40 versions against an ISO region map + table folding (geometry, Annex E) + edge-dominance guard rule",
+         "Every module of the blank symbol (label and fixed value) for all 40 versions, nothing outside size x size, the format writer touching format positions only (so function patterns are level/mask independent), guarded writes after construction."),
+ "C04": ("other", "DESIGN.md 3/C04 + 7", "BCH recomputation of 32+34 words + " + PE + " of the format writer (30 ISO positions, bit k at both copies) and of the version blocks + single-source rule for the mask + outcome table of QRCode::new",
+         "Word values, their bit-to-coordinate placement (quick: 168 (version, level, mask) cells; thorough: 1280) and value provenance of the reported fields are exact."),
+ "C05": ("proof", "DESIGN.md 3/C05 + 7", "decision-tree extraction of Version::get over all usize + " + PE + " of QRCode::new into an outcome table (24 600 cells around every capacity threshold x forced versions x given/defaulted mode and level) + compile witness",
+         "Exact for all lengths x 12 (mode, level) and forced versions, relative to the encoders emitting the bit counts the capacity formula assumes (widths decided by C06 rules)."),
  "C06": ("other", "DESIGN.md 3/C06", "table folding + call-site constant extraction + polynomial normal form of pushed values + stage-order dominance",
-         "Constants, widths, value formulas and stage order are exact; push_bits shift arithmetic and the remainder-digit loop are decided only as far as the rules name."),
- "C07": ("other", "DESIGN.md 3/C07", "GF(256) table and generator recomputation from the definition + buffer obligations over 160 cells",
-         "Tables and generators exact; the long-division loop is not decided as an algorithm."),
- "C08": ("other", "DESIGN.md 3/C08", "edge-dominance guard rule on canonical places + dispatcher folding + offset-table comparison",
-         "Function patterns identical under all masks on every path; each sweep's exact toggle set only as far as the rules name."),
- "C09": ("other", "DESIGN.md 3/C09", "exhaustive folding of classifier and value tables over 256 bytes + origin analysis of the mode",
+         "Constants, widths, value formulas and stage order are exact where the code keeps the recognised shapes (otherwise the rule abstains); push_bits shift arithmetic is not decided."),
+ "C07": ("other", "DESIGN.md 3/C07", "GF(256) table and generator recomputation from the definition + buffer obligations over 160 cells + skip-set of the division step over all 256 byte values + one-step polynomial algebra + exact placement of the remainder in the codeword sequence (C02.R4)",
+         "Tables, generators, the step and its zero-skip exact; that iterating the step yields the remainder for every content is not decided."),
+ "C08": ("other", "DESIGN.md 3/C08 + 7", PE + " of the eight sweeps on symbolic module values (toggled set = ISO Table 10 at every coordinate, value-independent by construction; quick V01-V10, thorough all 40) + edge-dominance guard rule + single-source rule for the mask",
+         "Exact toggle sets and untouched function modules for every payload; the mask applied is the mask recorded."),
+ "C09": ("other", "DESIGN.md 3/C09", "exhaustive folding of classifier and value tables over 256 bytes + origin analysis of the mode + loop-exit shape of the two-stage scan",
          "Classifier and its agreement with the encoder exact for all byte values; the scan loops only as far as the rules name."),
- "C10": ("other", "DESIGN.md 3/C10", "capacity decision tree + gate dominance + buffer-size obligations + compile witness; panic inventory",
-         "Decides the anchored mechanisms (gate, buffers, error type); value-range proofs of compiler-inserted asserts are declined."),
- "C11": ("other", "DESIGN.md 3/C11", "data-dependence slices, control-dependence (edge dominance) and origin analysis over the selection loop",
+ "C10": ("other", "DESIGN.md 3/C10", "capacity decision tree + QRCode::new outcome table + buffer-size obligations + accounted panic sites + panic-freedom of the configuration-determined code by " + PE + " + compile witness",
+         "Decides the anchored mechanisms (gate, buffers, error type) and that drawing, masking, placement, interleaving and format writing cannot panic for any of the configurations; value-range proofs of the remaining compiler-inserted asserts are declined."),
+ "C11": ("other", "DESIGN.md 3/C11", "data-dependence slices, control-dependence (edge dominance), reaching definitions across the loop back edge (candidate freshness) and origin analysis over the selection loop + scorer constants",
          "Reports the known finding D1 (column penalties computed on an unmasked copy); scorers' arithmetic only as far as the rules name."),
- "C12": ("other", "DESIGN.md 3/C12", "forward taint with decision-table-recognised sanitiser + format-template decoding + dominance/polynomial rules",
+ "C12": ("other", "DESIGN.md 3/C12", "forward taint with decision-table-recognised sanitiser + format-template decoding + dominance/must-pass-through/polynomial rules",
          "RGBA colours and the image string; free-form colour strings are outside the property; usvg/XML parsers are not run."),
- "C13": ("other", "DESIGN.md 3/C13", "sibling-agreement rule over 11 forwarding methods + decision-table folding of the FitTo match + origin analysis",
-         "Option plumbing only: pixel values come from resvg/tiny-skia whose bodies are not local MIR."),
+ "C13": ("other", "DESIGN.md 3/C13", "sibling-agreement rule over 11 forwarding methods + decision-table folding of the FitTo match + origin analysis + the SVG skeleton rules of C12",
+         "Option plumbing and the rasterised document's skeleton only: pixel values come from resvg/tiny-skia whose bodies are not local MIR."),
  "C14": ("proof", "DESIGN.md 3/C14", "crate-wide fact enumeration (statics, unsafe, type graph, signatures, call-graph deny-list, setter effects) + Send/Sync and borrow witnesses",
          "Proof modulo: std deterministic, resvg without global state; zero-count rules are exercised on a positive fixture every run."),
- "C15": ("other", "DESIGN.md 3/C15", "exhaustive folding of the label encoding + one-constructor-per-writer rule + guarded-write rule + witnesses",
-         "Label encoding and immutability exact; coordinates of each region only as far as the rules name."),
- "C16": ("other", "DESIGN.md 3/C16", "decision-table extraction of the glyph match + push-sequence recognition + trip-count algebra over 40 sizes",
-         "Decide-or-abstain on the loop shape; no string is produced or compared."),
+ "C15": ("other", "DESIGN.md 3/C15 + 7", "exhaustive folding of the label encoding + " + PE + " of blank symbol, format writer and placement against the ISO region map + guarded-write rule + callback-argument rule + witnesses",
+         "Every module's label for all 40 versions, preserved by every later writer; the module handed to shape callbacks is the one at (row, column)."),
+ "C16": ("other", "DESIGN.md 3/C16 + 7", PE + " of the terminal renderer with symbolic module values and symbolic-branch merging (every glyph as a decision table over the two modules in place; quick 8 sizes incl. V39/V40, thorough 40) + no-static rule",
+         "The produced text is decided glyph by glyph for every matrix content; a renderer outside the evaluator's language is an abstention."),
  "C17": ("other", "DESIGN.md 3/C17", "host-compiled MIR of wasm.rs under a cfg hook: trap-call scan, same-vector length-guard dominance, field-length invariant, forwarding table",
          "wasm-bindgen glue and the wasm32 target are not compiled here; equality with native output follows from forwarding, not from comparing strings."),
- "C18": ("other", "DESIGN.md 3/C18", "folding of image_placement over 3x40 + x/y symmetry of canonical expressions",
-         "Default-frame table clauses exact; floating-point rounding not decided."),
- "C19": ("other", "DESIGN.md 3/C19", "error-discipline rule (consumer classification of every io::Result) + dominance of Ok + provenance of written bytes + witness",
-         "No fault is injected; the guarantee is that no path drops an I/O error or reports Ok early."),
+ "C18": ("other", "DESIGN.md 3/C18 + 7", PE + " of SvgBuilder::image: frame and image rectangles as numbers for 40 versions x 3 shapes x margins 0..16 (exhaustive for defaults) and a lattice of size/gap/position overrides + folding of image_placement + x/y symmetry",
+         "Default placement exact on the property's own finite domain; real-valued overrides are decided on a stated lattice only."),
+ "C19": ("other", "DESIGN.md 3/C19", "error-discipline rule (consumer classification of every io::Result) + dominance of Ok + provenance of written bytes + buffered-writer flush rule + witness",
+         "No fault is injected; the guarantee is that no path drops an I/O error, reports Ok early, or leaves bytes in an unflushed buffer."),
 }
 
 def main():
@@ -82,11 +83,12 @@ def main():
         "engines": [
             {"name": "fqr-facts", "path": "driver/", "serves_properties": sorted(P), "kind_free_text": "rustc_private driver: dumps resolved MIR, evaluated constants, ADTs, statics, impls, user-written unsafe as JSON per configuration"},
             {"name": "fqrlint", "path": "fqrlint/", "serves_properties": sorted(P), "kind_free_text": "Python rule engine over the facts: CFG/dominators/edge-dominance, reaching definitions, origins, canonical expressions, polynomial normal form, forward taint, finite-domain folding, decision-tree extraction"},
+            {"name": "peval", "path": "fqrlint/peval.py", "serves_properties": ["C01", "C02", "C03", "C04", "C05", "C07", "C08", "C10", "C15", "C16", "C18"], "kind_free_text": "partial evaluator over MIR for configuration-determined code: constant propagation with loops unrolled, heap arrays, iterator/Option/Result/String models, closures, symbolic payload bits and bytes, symbolic-branch merging at post-dominators; a branch on anything unknown aborts (abstention)"},
             {"name": "witness", "path": "witness/", "serves_properties": ["C04", "C05", "C10", "C14", "C15", "C19"], "kind_free_text": "compile-pass witnesses and compile_fail doctests with compiling twins against the public API"},
             {"name": "fixture", "path": "fixture/", "serves_properties": ["C14", "C17"], "kind_free_text": "positive fixture crate on which the zero-count rules must fire on every run"},
         ],
         "checks": checks,
-        "notes": "All checks are static: none builds a test binary or runs fast_qr. Known findings are listed in known_findings.json (one known: C11 D1; three fixed by fix: commits). Exit 2 = machinery error (tree does not compile, driver missing).",
+        "notes": "All checks are static: none builds a test binary or runs compiled fast_qr code (engine E4 evaluates MIR abstractly over the finite configuration space with the payload symbolic, see DESIGN.md 7). Known findings are listed in known_findings.json (one known: C11 D1; three fixed by fix: commits). Exit 2 = machinery error (tree does not compile, driver missing).",
         "not_applicable": [],
     }
     with open(os.path.join(HERE, "MANIFEST.json"), "w") as f:
